@@ -62,16 +62,26 @@ def run(rep, tier):
     table = {k: sorted(v) for k, v in table.items()}
     want = {k: sorted(v) for k, v in want.items()}
     rep.check(table == want and names == set(want), "R17.1", "access-table", "READ/CREATE/MODIFY -> RDONLY/TRUNC/(TRUNC|RDWR)", "CheckpointFile opens files with %s (enumerators %s)" % (table, sorted(names)), ctor.loc(), sample=True)
-    gw = [f for f in F.find(X + "CheckpointFile::getWriter") if len(f.j["params"]) == 1][0]
-    rep.analysed(gw)
-    g = CFG(gw)
-    grp = [n for n in gw.walk() if n.get("k") == "mcall" and (n.get("callee") or "").endswith(("::createGroup", "::openGroup"))]
-    cmp_ = [n for n in gw.walk() if n.get("k") == "binop" and n["op"] == "==" and "READ" in show(n) and "accessLevel_" in show(n)]
-    reach = g.reachable_blocks()
-    live = [x for x in grp if x["id"] in g.where and g.where[x["id"]][0] in reach]
-    ok = len(cmp_) == 1 and bool(live) and all(g.edge_required(cmp_[0]["id"], False, x["id"]) is True for x in live)
-    rep.check(ok, "R17.1", "read-only-guard", "getWriter throws for READ before any group is created or opened",
-              "CheckpointFile::getWriter can create/open a group although the file was opened read-only", gw.loc(), sample=True)
+    # WHO + PATH: every place that constructs a CheckpointWriter from a group (in any function of the unit, not only getWriter(path)) is reachable
+    # only over the false edge of the accessLevel_ == READ test of its function; handing out a writer otherwise goes through such a function
+    sites = []
+    for f_ in F.funcs:
+        if f_.j["template"] == "pattern" or f_.file != front.repo("xtp/src/libxtp/checkpoint.cc"):
+            continue
+        cons = [n for n in f_.walk() if n.get("k") == "construct" and (n.get("callee") or "").endswith("CheckpointWriter::CheckpointWriter") and len(n.get("args") or []) >= 2]
+        if cons:
+            sites.append((f_, cons))
+    rep.floor("R17.1", sum(len(c) for _f, c in sites), 2, "constructions of a CheckpointWriter from a group")
+    for gw, cons in sites:
+        rep.analysed(gw)
+        g = CFG(gw)
+        cmp_ = [n for n in gw.walk() if n.get("k") == "binop" and n["op"] in ("==", "!=") and "READ" in show(n) and "accessLevel_" in show(n)]
+        reach = g.reachable_blocks()
+        live = [x for x in cons if x["id"] in g.where and g.where[x["id"]][0] in reach]
+        ok = len(cmp_) == 1 and bool(live) and all(g.edge_required(cmp_[0]["id"], cmp_[0]["op"] != "==", x["id"]) is True for x in live)
+        rep.check(ok, "R17.1", "read-only-guard|%s/%d" % (gw.qname.split("::")[-1], len(gw.j["params"])), "a writer is constructed only after the READ test failed",
+                  "%s(%s) can construct a CheckpointWriter although the file was opened read-only (no accessLevel_ == READ rejection on the way): with a second read-write handle on "
+                  "the same file open in the process, HDF5 lets that writer modify the file" % (gw.qname, ", ".join(p_["name"] for p_ in gw.j["params"])), gw.loc(cons[0]), sample=True)
 
     # ---------------------------------------------------------------- R17.2
     W, R = X + "CheckpointWriter", X + "CheckpointReader"
